@@ -85,6 +85,16 @@ func UnmarshalAttribute(attr *api.Attribute) (bgp.PathAttributeInterface, error)
 		var linkLocalNexthop netip.Addr
 		if rf.Afi() == bgp.AFI_IP6 {
 			nexthop = netip.IPv6Unspecified()
+		}
+		if rf.Safi() == bgp.SAFI_FLOW_SPEC_UNICAST || rf.Safi() == bgp.SAFI_FLOW_SPEC_VPN {
+			nexthop = netip.Addr{}
+		} else if len(a.MpReach.NextHops) > 0 {
+			nexthop, err = netip.ParseAddr(a.MpReach.NextHops[0])
+			if err != nil {
+				return nil, fmt.Errorf("invalid nexthop: %s", a.MpReach.NextHops[0])
+			}
+			// The link-local next hop accompanies an IPv6 global next hop whatever
+			// the AFI of the NLRI is (RFC 2545, RFC 8950), so it is not tied to AFI_IP6.
 			if len(a.MpReach.NextHops) > 1 {
 				linkLocalNexthop, err = netip.ParseAddr(a.MpReach.NextHops[1])
 				if err != nil || !linkLocalNexthop.Is6() {
@@ -92,21 +102,13 @@ func UnmarshalAttribute(attr *api.Attribute) (bgp.PathAttributeInterface, error)
 				}
 			}
 		}
-		if rf.Safi() == bgp.SAFI_FLOW_SPEC_UNICAST || rf.Safi() == bgp.SAFI_FLOW_SPEC_VPN {
-			nexthop = netip.Addr{}
-		} else if len(a.MpReach.NextHops) > 0 {
-			nexthop, err = netip.ParseAddr(a.MpReach.NextHops[0])
-			if err != nil {
-				return nil, fmt.Errorf("invalid nexthop: %s", nexthop)
-			}
-		}
 		l := make([]bgp.PathNLRI, 0, len(nlris))
 		for _, n := range nlris {
 			l = append(l, bgp.PathNLRI{NLRI: n})
 		}
-		attr, _ := bgp.NewPathAttributeMpReachNLRI(rf, l, nexthop)
-		attr.LinkLocalNexthop = linkLocalNexthop
-		return attr, nil
+		// Hand both next hops to the constructor so that the attribute length
+		// accounts for the link-local one.
+		return bgp.NewPathAttributeMpReachNLRI(rf, l, nexthop, linkLocalNexthop)
 	case *api.Attribute_MpUnreach:
 		rf := ToFamily(a.MpUnreach.Family)
 		nlris, err := UnmarshalNLRIs(rf, a.MpUnreach.Nlris)
